@@ -26,7 +26,7 @@ deriving DecidableEq, Repr, Inhabited
 inductive Mode | create | append | read
 deriving DecidableEq, Repr
 
-inductive Err | indexError | valueError | runtimeError | evictionRefused | noSession
+inductive Err | indexError | valueError | runtimeError | evictionRefused | noSession | internal
 deriving DecidableEq, Repr
 
 inductive Out
@@ -257,6 +257,22 @@ def opGetFlight (w : World) (s : Sess) (id : Int) : World × Out :=
       let (s, o) := s.getItem d i
       (⟨d, some s⟩, o)
 
+/-- `save(base_file)`: an in-memory store is written to a new NetCDF file and becomes an ordinary file-backed CREATE
+    session (evictions allowed from then on). `index_stale` is not touched: the `_index` group is created empty and filled by
+    the next lazy re-index. Refused when the store is already linked to files, or when the target file exists. -/
+def opSave (w : World) (s : Sess) : World × Out :=
+  if s.linked then (w, .err .runtimeError) else
+  if w.disk.present then (w, .err .valueError) else
+  match s.cache.entries with
+  | [] => (w, .err .internal)          -- `_create` asserts that there is a trajectory to take the schema from
+  | e :: _ =>
+    let d : Disk := { present := true, items := s.cache.entries.map (·.2), fs := e.2.fs,
+                      hasIndex := s.indexable == some true, index := [] }
+    (⟨d, some { s with mem := false, linked := true, pending := false,
+                        cache := { s.cache with noEvict := false,
+                                                -- every trajectory is read back in index order while it is written
+                                                order := List.range s.cache.entries.length } }⟩, .ok)
+
 inductive Op
   | create (file : Bool) (cacheMb : Nat)
   | openRead (cacheMb : Nat)
@@ -268,6 +284,7 @@ inductive Op
   | iter
   | sync
   | getFlight (id : Int)
+  | save
 deriving Repr
 
 def step (w : World) (op : Op) : World × Out :=
@@ -292,6 +309,7 @@ def step (w : World) (op : Op) : World × Out :=
         if s.mode = .read then (w, .err .runtimeError)
         else let (s', d) := reindex s w.disk; (⟨d, some s'⟩, .ok)
       | .getFlight id => opGetFlight w s id
+      | .save => opSave w s
       | _ => (w, .ok)
 
 def run (w : World) : List Op → List Out
@@ -382,6 +400,12 @@ def specStep (sp : Spec) (op : Op) : Spec × Out :=
       | .len => (sp, .len (sp.items s).length)
       | .iter => (sp, specIter s (sp.items s) [])
       | .sync => if s.mode = .read then (sp, .err .runtimeError) else (sp, .ok)
+      | .save =>
+        if !s.mem then (sp, .err (if sp.present then .runtimeError else .internal))
+        else if sp.present then (sp, .err .valueError)
+        else match sp.memItems with
+          | [] => (sp, .err .internal)
+          | _ :: _ => (⟨true, sp.memItems, s.schema, [], some { s with mem := false }⟩, .ok)
       | .getFlight id =>
         match s.schema with
         | some (_, true) =>
@@ -421,6 +445,7 @@ def getOpJ (j : Json) : Except String Op := do
   | "iter" => pure .iter
   | "sync" => pure .sync
   | "get_flight" => pure (.getFlight (← getInt (← field j "fid")))
+  | "save" => pure .save
   | _ => throw s!"bad store op {k}"
 
 def errStr : Err → String
@@ -429,6 +454,7 @@ def errStr : Err → String
   | .runtimeError => "err:runtime_error"
   | .evictionRefused => "err:eviction_refused"
   | .noSession => "no_session"
+  | .internal => "err:internal"
 
 def itemStr (it : Item) : String := s!"t{it.tag}"
 
